@@ -159,8 +159,11 @@ def prop_kinds(case):
         out3 = None
         try:
             g3 = gfapy.Gfa(**kw)
-            for l in lines:
-                g3.add_line(gfapy.Line(l, vlevel=vlevel))
+            for j, l in enumerate(lines):
+                inst = gfapy.Line(l, vlevel=vlevel)
+                if case.get("clones") and (j + len(lines)) % 2 == 0:
+                    inst = inst.clone()  # a copy is the same line: same version, same syntax
+                g3.add_line(inst)
             g3.process_line_queue()
             out3 = "ok"
         except gfapy.VersionError:
@@ -215,7 +218,7 @@ def enum_kinds(maxlen):
                     if i % nshards != shard:
                         continue
                     for vlevel in (1, 2, 0):
-                        yield {"seq": list(seq), "param": param, "vlevel": vlevel}
+                        yield {"seq": list(seq), "param": param, "vlevel": vlevel, "clones": (i + vlevel) % 3 == 0}
                     if any(k in DUP_OK and seq.count(k) > 1 for k in seq):
                         yield {"seq": list(seq), "param": param, "vlevel": 1 + (i % 2), "same": True}
         rk = ["#", "S1", "S2", "L", "E", "X"]
@@ -228,6 +231,62 @@ def enum_kinds(maxlen):
                     if i % nshards == shard:
                         yield {"seq": list(seq), "param": param, "vlevel": 1, "dialect": "rgfa"}
     return e
+
+
+OTHER_VN = ["1.1", "1.2", "2.1", "3.0", "1", "x.x"]
+
+
+def prop_vn(case):
+    """A header that declares a version number other than 1.0 and 2.0: whatever a library makes of it (gfapy: not
+    supported, VersionError), it makes the same of it in every order of the lines and through every entry point
+    (validation level >= 1; level 0 documents that the cross-check with the header is skipped)."""
+    seq, vn, vlevel, param = case["seq"], case["vn"], case["vlevel"], case["param"]
+    segs = ["s%d" % i for i, k in enumerate(seq) if k in ("S1", "S2")]
+    x, y = (segs[0], segs[-1]) if segs else ("X0", "Y0")
+    base = [("H\tVN:Z:%s" % vn) if k == "H3" else make_line(k, i, x, y) for i, k in enumerate(seq)]
+    kw = {"vlevel": vlevel}
+    if param:
+        kw["version"] = param
+    outcomes = {}
+    for perm in sorted(set(itertools.permutations(range(len(base))))):
+        lines = [base[i] for i in perm]
+        for how in ("add_line", "list"):
+            if how == "list" and not segs:
+                continue
+            try:
+                if how == "list":
+                    g = gfapy.Gfa(lines, **kw)
+                else:
+                    g = gfapy.Gfa(**kw)
+                    for l in lines:
+                        g.add_line(l)
+                    g.process_line_queue()
+                out = ("ok", g.version, len([l for l in g.lines if l.record_type != "H" and not l.virtual]))
+            except gfapy.VersionError:
+                out = ("VersionError",)
+            except GfapyError as e:
+                out = (type(e).__name__,)
+            except Exception as e:
+                raise Violation("foreign", "VN:Z:%s, %s, order %s raised %s: %s" % (vn, how, [seq[i] for i in perm], type(e).__name__, str(e)[:200]), type(e).__name__)
+            outcomes.setdefault(out, []).append((how, [seq[i] for i in perm]))
+    if len(outcomes) > 1:
+        raise Violation("order-dependent", "H VN:Z:%s with %s (param=%s, vlevel=%d): the outcome depends on the order / entry point:\n%s" % (
+            vn, seq, param, vlevel, "\n".join("%s: %s" % (k, v[:4]) for k, v in sorted(outcomes.items(), key=str))), vn)
+    return {"nt": len(seq) >= 2, "vn": vn, "outcome": sorted(outcomes, key=str)[0][0]}
+
+
+def enum_vn(shard, nshards):
+    i = 0
+    kinds = ["H3", "#", "S1", "S2", "L", "E", "X", "H"]
+    for n in (1, 2, 3):
+        for seq in itertools.combinations_with_replacement(kinds, n):
+            if seq.count("H3") != 1 or seq.count("L") > 1:
+                continue
+            for vn in OTHER_VN:
+                for param in (None, "gfa1", "gfa2"):
+                    i += 1
+                    if i % nshards == shard:
+                        yield {"seq": list(seq), "vn": vn, "vlevel": 1 + i % 3, "param": param}
 
 
 def prop_doc(case):
@@ -318,4 +377,6 @@ def parts(tier):
     q = tier == "quick"
     return [Part("kinds", prop_kinds, enum=enum_kinds(3 if q else 4), exhaustive=True, quick_shards=8,
                  note="all sequences of line kinds up to the length bound x version parameter x vlevel"),
+            Part("vn-other", prop_vn, enum=enum_vn, exhaustive=True, quick_shards=2,
+                 note="a VN header other than 1.0/2.0 with up to two further lines: every order and both entry points give the same outcome"),
             Part("docs", prop_doc, strategy=st_doc(), n=600 if q else 4000, quick_shards=2)]
